@@ -77,6 +77,9 @@ def run(ctx):
     ctx.explain("E-DDDMP.placeholder: the counter of leading underscores for invented variable names, interpreted over model names, always "
                 "exceeds the number of leading underscores of every existing name (an invented `_x1` can never equal a real name).")
     edddmp.check_placeholder_underscores(ctx, F)
+    ctx.explain("E-DDDMP.callers: every caller of dddmp::import in the workspace (CLI, C and Python bindings) that derives the variable "
+                "mapping from the header reads support_var_order() (support variables by level position), never support_vars().")
+    edddmp.check_import_callers(ctx, F)
     ns = edddmp.check_strict_mode(ctx, F)
     ctx.floor("E-DDDMP.strictmode", "error creations in the exporter", ns, 4)
     nr = ebin.check_node_records(ctx, F)
